@@ -961,6 +961,154 @@ def w5_cases(ctx, rng):
                         "faults": {str(rng.randrange(0, 10)): rng.choice(W5_FAULTS)}})
     return out
 
+
+# ---------------------------------------------------------------- wave 6: device-less access points, re-submitted request objects
+
+W6_FAULTS = ["drop", "dup", ["delay", 0.4], ["delay", 2.5]]
+
+
+def run_w6(sc, max_loops=200000):
+    """complete stacks with
+       devless : ["a"], ["b"] or ["a","b"] — that side's StateMachineAccessPoint has NO local device object
+                 (supported: StateMachineAccessPoint(localDevice=None) uses its own attributes); the limits and
+                 timers the device object carried are set on the access point's attributes instead;
+       submit  : [len0, len1, ...] — ONE request object is submitted, and when the exchange is over its
+                 payload is replaced by one of the next length (equal length = unchanged object) and the SAME
+                 object is submitted again;
+       faults  : as usual, frame indices count over the whole run."""
+    from . import e2e as E
+    from . import e2e_oracle as O
+    from bacpypes.primitivedata import OctetString
+    from bacpypes.constructeddata import Any
+    faults = {int(k): (tuple(v) if isinstance(v, list) else v) for k, v in sc.get("faults", {}).items()}
+    net = E.E2ENet(policy=lambda i, pdu: faults.get(i, "ok"))
+    a = net.add_stack(10, **sc.get("a", {}))
+    b = net.add_stack(20, **sc.get("b", {}))
+    for who, st in (("a", a), ("b", b)):
+        if who in sc.get("devless", []):
+            d, m = st.device, st.smap
+            m.numberOfApduRetries = d.numberOfApduRetries
+            m.apduTimeout = d.apduTimeout
+            m.segmentTimeout = d.apduSegmentTimeout
+            m.segmentationSupported = d.segmentationSupported
+            m.maxSegmentsAccepted = getattr(d, "maxSegmentsAccepted", None)
+            m.maxApduLengthAccepted = d.maxApduLengthAccepted
+            m.localDevice = None
+    if sc.get("know", True):
+        a.know(b)
+        b.know(a)
+    b.server_mode = "ack"
+    b.response_payload = O.pattern(sc.get("slen", 0), 1)
+    lens = sc.get("submit") or [sc["clen"]]
+    t0 = net.vt.now
+    req = a.make_cpt(b, O.pattern(lens[0], 2))
+    submitted = []
+    ok = True
+    for k, n in enumerate(lens):
+        payload = O.pattern(n, 2 + k)
+        if k > 0 or True:
+            req.serviceParameters = Any(OctetString(payload))
+        submitted.append(payload)
+        try:
+            a.app.request(req)
+        except Exception as e:
+            a.raised.append((type(e).__name__, str(e)))
+        ok = net.run(until=net.vt.now + 200.0, max_loops=max_loops) and ok
+    quiesced = getattr(net.vt, "quiesced_at", None)
+    return {
+        "terminated": ok and quiesced is not None,
+        "elapsed": (quiesced if quiesced is not None else net.vt.now) - t0,
+        "conf": [(round(c[0] - t0, 6), c[1], c[2], c[3]) for c in a.confirmations],
+        "ind": [(round(i[0] - t0, 6), i[1], i[2]) for i in b.indications],
+        "raised": a.raised, "errors": net.vt.errors[:5],
+        "residue": {"a": a.residue(), "b": b.residue(), "heap": len(net.vt.pending())},
+        "frames": [(f[0], int(str(f[1])), str(f[2]), f[3], f[4], round((f[5] or t0) - t0, 6)) for f in net.lan.log],
+        "req_payload": submitted[-1], "resp_payload": b.response_payload, "iocb": [], "submitted": submitted,
+    }
+
+
+def judge_w6(ctx, sc, res, expect_ok):
+    from . import e2e_oracle as O
+    case = {"w6": sc}
+    nf = len(sc.get("faults", {}))
+    subs = res["submitted"]
+    fields = dict(stream="w6", n_faults=nf,
+                  segments=max(max(len(x) for x in subs), sc.get("slen", 0)) // max(1, sc["a"]["max_apdu"] - 6))
+    bad = []
+    if not res["terminated"]:
+        bad.append(("nontermination", "stacks still busy at the horizon"))
+    # every indication carries the payload of the submission it belongs to: with no fault the k-th one, in order
+    if nf == 0:
+        got = [i[2] for i in res["ind"]]
+        if got != subs:
+            bad.append(("request-payload", "the server application received payloads of %r octets, the client submitted "
+                        "%r (the same request object, payload replaced between submissions)" % (
+                            [None if g is None else len(g) for g in got], [len(x) for x in subs])))
+    else:
+        for i in res["ind"]:
+            if i[2] not in subs:
+                bad.append(("request-payload", "the server application received %r octets that were never submitted" % (
+                    None if i[2] is None else len(i[2]),)))
+    for c in res["conf"]:
+        if c[1] == "ack" and c[3] != res["resp_payload"]:
+            bad.append(("response-payload", "client received %r octets, server submitted %d" % (
+                None if c[3] is None else len(c[3]), len(res["resp_payload"]))))
+    bad += O.wire_checks(res) if len(subs) == 1 else []
+    errs = [e for e in list(res["errors"]) + list(res["raised"])
+            if not (e[0] == "RuntimeError" and str(e[1]).startswith("invalid APDU ("))]
+    if errs:
+        bad.append(("stack-exception", "an exception left the stack: %r" % (errs[:2],)))
+    if len(res["conf"]) != len(subs):
+        bad.append(("outcome-count", "%d submissions, %d outcomes %r" % (len(subs), len(res["conf"]),
+                                                                         [c[1] for c in res["conf"]])))
+    if expect_ok and nf <= 1 and sum(1 for c in res["conf"] if c[1] == "ack") != len(subs):
+        bad.append(("single-fault", "%s turned a transfer that succeeds into %r (access point without a device "
+                    "object on %r)" % ("one fault %r" % sc["faults"] if nf else "no fault at all",
+                                       [(c[1], c[3] if not isinstance(c[3], bytes) else len(c[3])) for c in res["conf"]],
+                                       sc.get("devless", []))))
+    for k, w in bad[:1]:
+        ctx.fail(k, case, w, **fields)
+    ctx.count("w6", ("w6", sc["a"]["max_apdu"], tuple(sc.get("devless", [])), len(subs),
+                     tuple(sorted(str(v if isinstance(v, str) else v[0]) for v in sc.get("faults", {}).values())),
+                     tuple(c[1] for c in res["conf"])))
+
+
+def w6_shard(ctx, items):
+    for sc in items:
+        base = dict(sc)
+        sweep = base.pop("_sweep", False)
+        r0 = run_w6(base)
+        judge_w6(ctx, base, r0, True)
+        if sweep:
+            ok0 = all(c[1] == "ack" for c in r0["conf"]) and bool(r0["conf"])
+            for i in range(len(r0["frames"])):
+                for act in W6_FAULTS:
+                    s1 = dict(base, faults={str(i): act})
+                    judge_w6(ctx, s1, run_w6(s1), ok0)
+
+
+def w6_cases(ctx, rng):
+    out = []
+    apdus = [50, 206] if ctx.quick else [50, 128, 206, 480, 1024]
+    for apdu in apdus:
+        size = apdu - 6
+        # access points without a device object: every single fault at every frame index
+        for devless in (["a"], ["b"], ["a", "b"]):
+            for clen, slen in ((2 * size + 1, 2 * size + 1), (5, 3 * size - 4), (3 * size - 4, 5)):
+                for wa, wb in (((2, 2),) if ctx.quick else ((2, 2), (1, 4), (5, 3))):
+                    out.append({"clen": clen, "slen": slen, "a": IMPL.stack(apdu, window=wa), "b": IMPL.stack(apdu, window=wb),
+                                "devless": devless, "know": (len(devless) == 1), "_sweep": True})
+        # one request object, submitted again unchanged and after its payload was replaced
+        fit = apdu - 30            # fits one APDU with the service header
+        for lens in ([fit, fit], [fit, fit + 30], [fit + 30, fit], [fit, 3 * size], [3 * size, fit], [3 * size, 3 * size + 7],
+                     [2 * size + 3, 2 * size - 9, 5], [200, 230], [230, 200]):
+            out.append({"submit": lens, "slen": 5, "a": IMPL.stack(apdu), "b": IMPL.stack(apdu), "know": True})
+            out.append({"submit": lens, "slen": 2 * size, "a": IMPL.stack(apdu), "b": IMPL.stack(apdu), "know": False,
+                        "devless": rng.choice([[], ["a"], ["b"]])})
+        out.append({"submit": [fit + 30, fit], "slen": 5, "a": IMPL.stack(apdu), "b": IMPL.stack(apdu), "know": True,
+                    "_sweep": True})
+    return out
+
 # ---------------------------------------------------------------- corpus / run
 
 def corpus_cases():
@@ -980,6 +1128,10 @@ def run_case(ctx, case, label):
     if "w5" in case:
         sc = case["w5"]
         judge_w5(ctx, sc, run_w5(sc), True)
+        return
+    if "w6" in case:
+        sc = case["w6"]
+        judge_w6(ctx, sc, run_w6(sc), True)
         return
     if "scenario" in case:                      # end-to-end witness
         IMPL.replay_impl(ctx, case)
@@ -1020,6 +1172,8 @@ def run(ctx):
     core.run_shards(ctx, "harness.c05", "stale_e2e_shard", [c for c in (cases[i::16] for i in range(16)) if c])
     w5 = w5_cases(ctx, ctx.sub_rng("c05/w5"))
     core.run_shards(ctx, "harness.c05", "w5_shard", [c for c in (w5[i::16] for i in range(16)) if c])
+    w6 = w6_cases(ctx, ctx.sub_rng("c05/w6"))
+    core.run_shards(ctx, "harness.c05", "w6_shard", [c for c in (w6[i::16] for i in range(16)) if c])
     IMPL.run_impl(ctx)
 
 
@@ -1043,7 +1197,7 @@ def replay(ctx, payload):
     rec = payload.get("failure") or (payload.get("correspondence_disagreements") or [{}])[0]
     case = rec.get("case")
     if isinstance(case, dict) and ("scenario" in case or "clen" in case or "kind" in case or "stale_e2e" in case
-                                   or "w5" in case):
+                                   or "w5" in case or "w6" in case):
         run_case(ctx, case, "replay")
         return
     if isinstance(case, dict) and "events" in case:
